@@ -188,7 +188,7 @@ func (s *slice) init(c *fw.Ctx) {
 	s.memo = map[string]*refRes{}
 	s.failKeys = map[string][]string{}
 	s.m0 = initModel(s.u, s.ft)
-	s.okeys = obsKeys(s.u, s.ft)
+	s.okeys = append(obsKeys(s.u, s.ft), probeKeys(s.u)...)
 }
 
 func acctOps(a int, rich bool) []Op {
@@ -281,8 +281,19 @@ func buildSlices(thorough bool, gen, com, com2, warm *universe) []*slice {
 	}
 	// refund, logs, access list, transient storage, interleaved with a few account letters
 	for _, u := range us {
-		y := []Op{{K: kSetNonce, A: 0, V: 7}, {K: kSetData, A: 1, S: 1, V: 1}, {K: kSuicide, A: 1}}
+		y := []Op{{K: kSetNonce, A: 0, V: 7}, {K: kSetData, A: 1, S: 1, V: 1}, {K: kSuicide, A: 1}, {K: kPrepare, V: 1}, {K: kPrepare, V: 2}}
 		add("side", u, d(5, 6), false, cat(sideOps(), y, ctlOps()))
+	}
+	// several transactions of one block on the same AccountDB (Prepare between them, no
+	// Finalise/Reset): block-wide log counter, refund, transient storage carried across, access
+	// list reset per transaction
+	for _, u := range us {
+		if u == gen && !thorough {
+			continue
+		}
+		y := []Op{{K: kPrepare, V: 1}, {K: kPrepare, V: 2}, {K: kAddLog, V: 1}, {K: kAddLog, V: 2}, {K: kAddRefund, V: 5}, {K: kSubRefund, V: 2},
+			{K: kALAddr, A: 0}, {K: kALSlot, A: 0, S: 1}, {K: kALSlot, A: 1, S: 1}, {K: kTransient, A: 0, S: 1, V: 1}, {K: kTransient, A: 0, S: 1, V: 0}, {K: kSetNonce, A: 0, V: 7}}
+		add("tx", u, d(6, 7), false, cat(y, ctlOps()))
 	}
 	// one address at a time, all account letters (second values, GetCommittedState, balance
 	// arithmetic, transfers with a neighbour)
@@ -364,6 +375,7 @@ func (s *slice) runImpl(h []Op, mode int, wantLeaves bool) (r runRes) {
 		if mode == modeObs || mode == modeObsOnly {
 			r.dump = account.VerifDump(x.st, true)
 			r.obs = observe(x.st, s.u, s.ft)
+			r.obs = append(r.obs, probe(x.st, s.u)...)
 		}
 		switch mode {
 		case modeObs, modeCold:
@@ -560,7 +572,7 @@ func (s *slice) eval(h []Op) *nodeRes {
 	}
 	// oracle 1: the reference model.  In a history without RevertToSnapshot a mismatch is a
 	// deviation of the forward semantics (outside the property: recorded, not flagged).
-	mo := m.observe(s.u, s.ft)
+	mo := append(m.observe(s.u, s.ft), m.probe(s.u)...)
 	modelMis := map[int]string{}
 	for i, v := range a.obs {
 		if want := mo[i]; want != undef && want != v {
